@@ -532,6 +532,67 @@ def _typeref_faults(g, e, ek, local, a, b, current, is_attr, max_requirers):
     return out
 
 
+def find_cycle(text):
+    """Cause analysis of a mutated text: `href-cycle` when the DRG elements (by id) reach themselves through
+    hrefs, `typeRef-cycle` when a top-level item definition reaches itself through typeRef names, else None.
+    Duplicate ids / names are merged (any of the duplicates may be the one the evaluator picks)."""
+    try:
+        doc = parse(text)
+    except XmlSyntax:
+        return None
+    edges = {}
+    for e in doc.root.elems():
+        if e.local in DRG_KINDS:
+            ida = e.attr("id")
+            if ida is None:
+                continue
+            tg = edges.setdefault(unescape(ida.value), set())
+            for d in e.walk():
+                h = d.attr("href")
+                if h is not None:
+                    tg.add(_href_id(h.value))
+    if _has_cycle(edges):
+        return "href-cycle"
+    edges = {}
+    for e in doc.root.elems():
+        if e.local == "itemDefinition" and e.attr("name") is not None:
+            tg = edges.setdefault(unescape(e.attr("name").value).strip(), set())
+            for d in e.walk():
+                if d.local == "typeRef":
+                    tg.add(_strip_prefix(d.text_content().strip()))
+                ta = d.attr("typeRef")
+                if ta is not None:
+                    tg.add(_strip_prefix(unescape(ta.value).strip()))
+    if _has_cycle(edges):
+        return "typeRef-cycle"
+    return None
+
+
+def _has_cycle(edges):
+    state = {}
+    for start in edges:
+        if start in state:
+            continue
+        stack = [(start, iter(sorted(edges.get(start, ()))))]
+        state[start] = 1
+        while stack:
+            node, it = stack[-1]
+            nxt = next(it, None)
+            if nxt is None:
+                state[node] = 2
+                stack.pop()
+                continue
+            if nxt not in edges:
+                continue
+            st = state.get(nxt)
+            if st == 1:
+                return True
+            if st is None:
+                state[nxt] = 1
+                stack.append((nxt, iter(sorted(edges.get(nxt, ())))))
+    return False
+
+
 # ---------------------------------------------------------------------------------------------
 # character-level corruption
 # ---------------------------------------------------------------------------------------------
